@@ -6,12 +6,12 @@ from fractions import Fraction
 
 from harness.core import tb
 
-PROOF_MODULE = ["OdeVerif.Proofs.C15", "OdeVerif.Proofs.RefineSpikes"]
-GENERATED = ['PySpikes', 'Constants']
+PROOF_MODULE = ["OdeVerif.Proofs.C15", "OdeVerif.Proofs.RefineSpikes", "OdeVerif.Proofs.RefineSpikesJson"]
+GENERATED = ['PySpikes', 'PySpikesJson', 'Constants']
 THEOREMS = ["OdeVerif.C15.regular_exact", "OdeVerif.C15.regular_spec", "OdeVerif.C15.regular_fuel", "OdeVerif.C15.poisson_spec",
             "OdeVerif.C15.list_spec", "OdeVerif.C15.list_spec_nil", "OdeVerif.C15.list_spec_single",
             "OdeVerif.C15.targets_rewritten", "OdeVerif.C15.fromJson_key_train", "OdeVerif.C15.fromJson_keys_nodup",
-            "OdeVerif.Refine.regularSpikes_refines", "OdeVerif.Refine.poissonSpikes_refines"]
+            "OdeVerif.Refine.regularSpikes_refines", "OdeVerif.Refine.poissonSpikes_refines", "OdeVerif.Refine.spikeTimesFromJson_refines"]
 LEVEL = "proof"
 SLACK = 1e-9
 
